@@ -38,6 +38,15 @@ CLAIMED = {
   "text": "Gate-by-precondition over the real text of SendBlocksProofProcess::{execute, execute_internally}, SendTransactionsProofProcess::{execute, execute_internally}, verify_extra_hash, BlocksProofRequest::check_block_hashes, TransactionsProofRequest::check_tx_hashes (iff against 'response == request'), verify_mmr_proof: a matched block is flagged proved, a header is stored as fetched, a transaction is stored as fetched, and hashes are reported not_found only under evidence whose introduction rules are the property's conjunction (response's last header is the one the request named and commits to its chain root; valid MMR proof binds the returned headers; PoW valid; v1 extension committed by the extra hash; CBMT proof + witnesses root reproduce the header's transactions root for the shipped transactions; the response answers the outstanding request; the hash was requested). Verus proves every path reaching a writer carries it.",
   "note": "Partial: the SendBlock body path (SyncProtocol) is not under contract (named in evidence). Crypto functions uninterpreted; readers/storage/peer table are shims.",
   "ref": "DESIGN.md 5-C02"},
+
+ "C06": {
+  "text": "Gate-by-precondition over the real text of BlockFiltersProcess::execute and FilterProtocol::update_min_filtered_block_number: the filtered height advances and matched blocks are recorded only for a batch that starts exactly at min_filtered+1 and whose accepted prefix hashes, chained (H_i = filter_hash(H_{i-1}, f_i)) from the authentic hash of block start-1, to the authentic hash of block start+i for every i - where 'authentic' is produced only by the finalized check point / cached hashes / quorum vector getters, and the index arithmetic that attributes each expected hash to its block is proved (all four provenance branches). BlockFilterHashesProcess / BlockFilterCheckPointsProcess and LatestBlockFilterHashes / CheckPoints are proved total.",
+  "note": "Partial: block_hashes of the message (which block is downloaded for a matching filter) are NOT verified - named in evidence; the quorum behind 'agreed' hashes is C07 (not applicable). Found and fixed while proving: S1d, S1i, S1j, S1k.",
+  "ref": "DESIGN.md 5-C06"},
+ "C09": {
+  "text": "Partial (last sentence of the property only): Storage::update_block_number, which raises every registered script's recorded block number, is reached in BlockFiltersProcess::execute only when no matched-block record is stored (idle branch) or after a verified batch with no match while no matched block is waiting for download; proved for every message and state by gate-by-precondition on the real handler text.",
+  "note": "Storage::update_filter_scripts (set semantics, rewind rule, discarding pending blocks) is not under contract in this revision.",
+  "ref": "DESIGN.md 5-C09"},
 }
 
 NOT_APPLICABLE = {
